@@ -129,7 +129,10 @@ func history(c *vm.Ctx, r *vm.Rand, hi int, sigs map[uint64]bool) {
 	qk := queueKinds[hi%len(queueKinds)]
 	q := qk.mk()
 	P, C := r.Range(1, 8), r.Range(1, 8)
-	perProd := r.Range(1, max(1, 40/P))
+	perProd := r.Range(1, max(1, 12/P)) // short histories: the check is exponential in the worst case
+	if P*perProd+C > 16 {
+		perProd = max(1, (16-C)/P)
+	}
 	procs := []int{1, 2, 4, 16}[r.Intn(4)]
 	runtime.GOMAXPROCS(procs)
 	base := time.Now()
@@ -193,7 +196,8 @@ func history(c *vm.Ctx, r *vm.Rand, hi int, sigs map[uint64]bool) {
 	for _, o := range all {
 		ops = append(ops, porcupine.Operation{ClientId: o.client, Input: o.in, Call: o.call, Output: o.out, Return: o.ret})
 	}
-	res, _ := porcupine.CheckOperationsVerbose(queueModel(qk.cap), ops, 60*time.Second)
+	runtime.GOMAXPROCS(16)
+	res, _ := porcupine.CheckOperationsVerbose(queueModel(qk.cap), ops, 20*time.Second)
 	c.Eval(vm.HashStr("hist", qk.name, fmt.Sprint(c.Shard, hi)), P+C >= 3)
 	// interleaving signature: completion order of (client, op)
 	sort.Slice(all, func(i, j int) bool { return all[i].ret < all[j].ret })
@@ -244,6 +248,10 @@ func stress(c *vm.Ctx, r *vm.Rand, qk queueKind, P, C, perProd int, consumersFir
 		v uint32
 	}
 	pulled := make([][]uint32, C)
+	pulledT := make([][][2]int64, C) // call/return time of every successful pull
+	acceptedT := make([][][2]int64, P)
+	base := time.Now()
+	now := func() int64 { return int64(time.Since(base)) } // monotonic clock reading; no timer involved
 	accepted := make([][]uint32, P)
 	refusedCnt := make([]int, P)
 	afterFalse := int32(0)
@@ -255,13 +263,17 @@ func stress(c *vm.Ctx, r *vm.Rand, qk queueKind, P, C, perProd int, consumersFir
 			defer consWG.Done()
 			for {
 				atomic.AddInt32(&parked, 1)
+				t0 := now()
 				v, ok := q.Pull()
+				t1 := now()
 				atomic.AddInt32(&parked, -1)
 				if !ok {
 					// nothing may be delivered after closure was reported
 					return
 				}
 				pulled[k] = append(pulled[k], v)
+				pulledT[k] = append(pulledT[k], [2]int64{t0, t1})
+				c.Tick()
 			}
 		}(k)
 	}
@@ -278,8 +290,10 @@ func stress(c *vm.Ctx, r *vm.Rand, qk queueKind, P, C, perProd int, consumersFir
 			defer prodWG.Done()
 			for s := 0; s < perProd; s++ {
 				v := uint32(p)<<24 | uint32(s)
+				t0 := now()
 				if q.Push(v) {
 					accepted[p] = append(accepted[p], v)
+					acceptedT[p] = append(acceptedT[p], [2]int64{t0, now()})
 				} else {
 					refusedCnt[p]++
 					if qk.cap == 0 {
@@ -323,6 +337,43 @@ func stress(c *vm.Ctx, r *vm.Rand, qk queueKind, P, C, perProd int, consumersFir
 	if total != nacc {
 		c.Violation("stress/conservation/"+qk.name, fmt.Sprintf("%d items accepted, %d delivered before closure was reported", nacc, total), wit())
 		return
+	}
+	// FIFO order across all clients (the queue "bad pattern" with unique values): if Push(a) returned before
+	// Push(b) was called, Pull->b must not have returned before Pull->a was called.
+	type item struct{ enqCall, enqRet, deqCall, deqRet int64; v uint32 }
+	byV := map[uint32]*item{}
+	var items []*item
+	for p := range accepted {
+		for i, v := range accepted[p] {
+			it := &item{enqCall: acceptedT[p][i][0], enqRet: acceptedT[p][i][1], v: v}
+			byV[v] = it
+			items = append(items, it)
+		}
+	}
+	for k := range pulled {
+		for i, v := range pulled[k] {
+			if it := byV[v]; it != nil {
+				it.deqCall, it.deqRet = pulledT[k][i][0], pulledT[k][i][1]
+			}
+		}
+	}
+	byCall := append([]*item{}, items...)
+	sort.Slice(byCall, func(i, j int) bool { return byCall[i].enqCall < byCall[j].enqCall })
+	byRet := append([]*item{}, items...)
+	sort.Slice(byRet, func(i, j int) bool { return byRet[i].enqRet < byRet[j].enqRet })
+	j := 0
+	var latest *item // among items whose Push returned before the current Push was called: the one pulled latest (by call time)
+	for _, b := range byCall {
+		for j < len(byRet) && byRet[j].enqRet < b.enqCall {
+			if latest == nil || byRet[j].deqCall > latest.deqCall {
+				latest = byRet[j]
+			}
+			j++
+		}
+		if latest != nil && latest.deqCall > b.deqRet {
+			c.Violation("stress/fifo-order/"+qk.name, fmt.Sprintf("item %#x was pushed strictly before item %#x but pulled strictly after it", latest.v, b.v), wit())
+			return
+		}
 	}
 	// per (producer, consumer) order
 	for k := range pulled {
@@ -379,6 +430,58 @@ func closeWithParked(c *vm.Ctx, qk queueKind, n int) {
 	wg.Wait()
 	c.EvalN(int64(n), vm.HashStr("close-parked", qk.name, fmt.Sprint(n)), n > 1)
 	c.Cover("close.with-parked-consumers." + qk.name)
+}
+
+// burstOneEach: n consumers park on an empty queue and take exactly ONE item each; then n items arrive in a
+// burst from several producers. Every consumer must be woken by an item (no Close helps here): a queue that
+// signals only sometimes leaves consumers parked although items are waiting.
+func burstOneEach(c *vm.Ctx, qk queueKind, n int) {
+	if qk.cap != 0 && qk.cap < n {
+		n = qk.cap
+	}
+	q := qk.mk()
+	var wg sync.WaitGroup
+	var inside int32
+	got := make([]uint32, n)
+	oks := make([]bool, n)
+	for i := 0; i < n; i++ {
+		wg.Add(1)
+		go func(i int) {
+			defer wg.Done()
+			atomic.AddInt32(&inside, 1)
+			got[i], oks[i] = q.Pull()
+			c.Tick()
+		}(i)
+	}
+	for i := 0; i < 5000 && atomic.LoadInt32(&inside) < int32(n); i++ {
+		runtime.Gosched()
+	}
+	for i := 0; i < 100; i++ {
+		runtime.Gosched()
+	}
+	var pw sync.WaitGroup
+	for p := 0; p < 2; p++ {
+		pw.Add(1)
+		go func(p int) {
+			defer pw.Done()
+			for i := p; i < n; i += 2 {
+				q.Push(uint32(i))
+			}
+		}(p)
+	}
+	pw.Wait()
+	wg.Wait() // without Close: each consumer needs its own wake-up
+	q.Close()
+	seen := map[uint32]bool{}
+	for i := range got {
+		if !oks[i] || seen[got[i]] {
+			c.Violation("burst/one-each/"+qk.name, fmt.Sprintf("consumer %d got (%d,%v)", i, got[i], oks[i]), nil)
+			return
+		}
+		seen[got[i]] = true
+	}
+	c.EvalN(int64(n), vm.HashStr("burst", qk.name, fmt.Sprint(n)), n > 1)
+	c.Cover("burst.every-parked-consumer-woken." + qk.name)
 }
 
 // fullQueue: a bounded queue that nobody drains must refuse, not block.
@@ -689,21 +792,27 @@ func playerList(c *vm.Ctx, r *vm.Rand, capacity, J, rounds int) {
 
 func run(c *vm.Ctx) {
 	r := c.Rand("c20")
+	c.EnableParkWatch("deadlock")
 	if c.Mode == "plain" {
-		// no timers, no background goroutines: if every goroutine parks, the runtime aborts with
-		// "all goroutines are asleep - deadlock!", which the driver reports as a violation.
+		// the park watch (vm.EnableParkWatch) decides lost wake-ups: all goroutines parked on
+		// synchronisation primitives with nobody left to run.
 		for i := 0; i < c.Scale(160, 3000); i++ {
 			qk := queueKinds[i%len(queueKinds)]
 			c.Inflight(fmt.Sprintf("stress %s #%d", qk.name, i))
 			c.FlushInflight()
 			stress(c, r, qk, r.Range(1, 8), r.Range(1, 8), r.Range(1, 2000), i%3 == 0)
+			c.Inflight(fmt.Sprintf("close-with-parked %s #%d", qk.name, i))
 			closeWithParked(c, qk, r.Range(1, 16))
+			c.Inflight(fmt.Sprintf("burst-one-each %s #%d", qk.name, i))
+			burstOneEach(c, qk, r.Range(2, 12))
+			c.Inflight(fmt.Sprintf("full-queue %s #%d", qk.name, i))
 			fullQueue(c, qk)
 		}
 		return
 	}
 	sigs := map[uint64]bool{}
 	for i := 0; i < c.Scale(3000, 100000); i++ {
+		c.Inflight(fmt.Sprintf("history #%d", i))
 		history(c, r, i, sigs)
 	}
 	runtime.GOMAXPROCS(16)
@@ -711,13 +820,19 @@ func run(c *vm.Ctx) {
 	c.Note("distinct_interleaving_signatures_shard0", len(sigs))
 	for i := 0; i < c.Scale(40, 800); i++ {
 		qk := queueKinds[i%len(queueKinds)]
+		c.Inflight(fmt.Sprintf("stress %s #%d", qk.name, i))
 		stress(c, r, qk, r.Range(1, 8), r.Range(1, 8), r.Range(1, 500), i%3 == 0)
+		c.Inflight(fmt.Sprintf("close-with-parked %s #%d", qk.name, i))
 		closeWithParked(c, qk, r.Range(1, 16))
+		c.Inflight(fmt.Sprintf("burst-one-each %s #%d", qk.name, i))
+		burstOneEach(c, qk, r.Range(2, 12))
 	}
 	for i := 0; i < c.Scale(8, 160); i++ {
+		c.Inflight("codecs")
 		codecs(c, r, r.Range(16, 64), c.Pick(60, 200))
 	}
 	for i := 0; i < c.Scale(40, 800); i++ {
+		c.Inflight("playerlist")
 		playerList(c, r, []int{1, 2, 10}[i%3], r.Range(2, 12), r.Range(20, 200))
 	}
 }
